@@ -77,6 +77,24 @@ pub const POOL: &[&str] = &[
     "'ab' 'ab' \"cd\" \"cd\"",
 ];
 
+/// one-constant programs whose constants are near misses of each other: texts, byte lists and symbols of several
+/// lengths that differ in one position only (first, middle or last), and the same number as integer and float
+pub fn near_miss_programs() -> Vec<String> {
+    let mut out: Vec<String> = vec!["7".into(), "7.0".into(), "8".into(), "0".into(), "0.0".into(), "07_10".into()];
+    for len in [3usize, 33, 65, 100, 300] {
+        for (open, close) in [("\"", "\""), ("'", "'"), (":", "")] {
+            let base: Vec<char> = (0..len).map(|i| (b'c' + (i % 20) as u8) as char).collect();
+            out.push(format!("{}{}{}", open, base.iter().collect::<String>(), close));
+            for pos in [0, len / 2, len - 1] {
+                let mut v = base.clone();
+                v[pos] = 'a';
+                out.push(format!("{}{}{}", open, v.iter().collect::<String>(), close));
+            }
+        }
+    }
+    out
+}
+
 #[derive(Clone, PartialEq, Debug)]
 struct Snapshot {
     instructions: Vec<(Instruction, Option<usize>)>,
@@ -237,7 +255,7 @@ impl Check for C20Check {
     fn rule(&self) -> String {
         format!(
             "Phase pool-pairs: every ordered pair of a pool of {} programs (empty program, constants, conditionals and chains, logic, nested expressions with all apply forms, reapply loop, side effect, sequencing, identifier look-ups, shared constants), with and without an execution between the two builds; \
-             phase random-sequences: 2..5 programs drawn from the pool and from random core-language ASTs, in tape-chosen order with tape-chosen interleaved executions. Each sequence is built into one SimpleGarnishData and one BasicGarnishData. \
+             phase random-sequences: 2..5 programs drawn from the pool and from random core-language ASTs, in tape-chosen order with tape-chosen interleaved executions. phase near-miss-constants: every ordered pair of one-constant programs whose constants are texts, byte lists and symbols of 3..300 characters differing in one position only (first, middle, last), and equal numbers of different kind. Each sequence is built into one SimpleGarnishData and one BasicGarnishData. \
              Oracle: after every later build, the instruction range, jump entries and constants (read back) of every earlier program are unchanged; every operand of the new program names something inside the ranges its own build created (C05's stream check with the build's extents); \
              each program run from its reported entry — between builds and after all builds — yields the same value as when built alone into a fresh object. \
              Non-trivial = at least two programs of the sequence own jump entries beyond their root; distinct = distinct (sequence, interleaving).",
@@ -249,7 +267,12 @@ impl Check for C20Check {
     }
     fn phases(&self, tier: Tier) -> Vec<Phase> {
         let n = POOL.len() as u64;
-        vec![Phase::exhaustive("pool-pairs", n * n * 2).with_chunk(64), Phase::random("random-sequences", tier.pick(60_000, 800_000), 200).with_min_tape(40).with_chunk(256)]
+        let m = near_miss_programs().len() as u64;
+        vec![
+            Phase::exhaustive("pool-pairs", n * n * 2).with_chunk(64),
+            Phase::random("random-sequences", tier.pick(60_000, 800_000), 200).with_min_tape(40).with_chunk(256),
+            Phase::exhaustive("near-miss-constants", m * m * 2).with_chunk(64),
+        ]
     }
     fn run(&self, _tier: Tier, phase: usize, input: &Input, ctx: &mut CaseCtx) {
         match (phase, input) {
@@ -259,6 +282,15 @@ impl Check for C20Check {
                 let r = i / 2;
                 let texts = vec![POOL[(r / n) as usize].to_string(), POOL[(r % n) as usize].to_string()];
                 ctx.class("pool-pair");
+                judge(&texts, &[inter, false], ctx);
+            }
+            (2, Input::Index(i)) => {
+                let near = near_miss_programs();
+                let n = near.len() as u64;
+                let inter = i % 2 == 1;
+                let r = i / 2;
+                let texts = vec![near[(r / n) as usize].clone(), near[(r % n) as usize].clone()];
+                ctx.class("near-miss-constants");
                 judge(&texts, &[inter, false], ctx);
             }
             (1, Input::Tape(t)) => {
